@@ -99,7 +99,9 @@ Proof. exact rtree_count. Qed.
 Print Assumptions C12_rtree_count.
 
 (** CreateTables on a new file registers every source table with the source's name, columns, geometry
-    column, geometry type and srs id; the srs ROW is the source's unless the library pre-seeded that id *)
+    column, geometry type and srs id, and the srs ROW of the target is the source's for EVERY srs id —
+    also the ids the library pre-seeds (after fix e2006e7).  The hypothesis on srs rows says that the
+    source's gpkg_spatial_ref_sys has one row per id (srs_id is its primary key). *)
 Theorem C12_schema_copied : forall tl,
   Forall table_ok tl -> NoDup (map t_name tl) ->
   (forall t t', In t tl -> In t' tl -> s_id (t_srs t) = s_id (t_srs t') -> t_srs t = t_srs t') ->
@@ -107,10 +109,20 @@ Theorem C12_schema_copied : forall tl,
     map ts_desc (db_tabs d) = map desc_of tl /\
     (forall t, In t tl ->
        find_tab (t_name t) (db_tabs d) = Some (fresh_tab t) /\
-       find_srs (s_id (t_srs t)) (db_srs d) =
-         Some (match find_srs (s_id (t_srs t)) known_srs with Some k => k | None => t_srs t end)).
+       find_srs (s_id (t_srs t)) (db_srs d) = Some (t_srs t)).
 Proof. exact create_tables_fresh. Qed.
 Print Assumptions C12_schema_copied.
+
+(** what the code does without that hypothesis: per srs id the row of the LAST table with that id stays
+    (each table's row overwrites), an id no table uses keeps what the file had *)
+Theorem C12_srs_last_table_wins : forall tl d d' id,
+  Forall table_ok tl -> NoDup (map t_name tl) ->
+  (forall t, In t tl -> ~ In (t_name t) (map tab_name (db_tabs d))) ->
+  create_tables d tl = Ok d' ->
+  find_srs id (db_srs d') =
+  match find_srs id (rev (map t_srs tl)) with Some s => Some s | None => find_srs id (db_srs d) end.
+Proof. exact create_tables_srs. Qed.
+Print Assumptions C12_srs_last_table_wins.
 
 (** [desc_of] is the source's description itself (GeoPackage tables have a single-column primary key) *)
 Theorem C12_schema_description_faithful : forall t, Forall (fun c => (c_pk c <= 1)%N) (t_cols t) ->
@@ -129,13 +141,6 @@ Theorem C12_schema_kept : forall t p fs d d' ts ts',
 Proof. exact schema_kept. Qed.
 Print Assumptions C12_schema_kept.
 
-(** KNOWN FINDING F10: for an srs id the library pre-seeds (-1, 0, 4326, 3857) the target keeps the
-    library's row, not the source's (UpdateSRS is INSERT .. ON CONFLICT DO NOTHING) *)
-Theorem C12_refuted_srs_preseeded : exists t d, table_ok t /\ create_tables empty_db [t] = Ok d /\
-  find_srs (s_id (t_srs t)) (db_srs d) <> Some (t_srs t).
-Proof. exact srs_preseeded_refuted. Qed.
-Print Assumptions C12_refuted_srs_preseeded.
-
 (** the whole property on a new file, no side condition left open: the run succeeds and the file has
     the rows, the extent, the rtree entries, the schema and the transaction count *)
 Theorem C12_fresh_file : forall tl t p fs,
@@ -149,8 +154,7 @@ Theorem C12_fresh_file : forall tl t p fs,
     ts_extent ts' = pts_ext (all_pts fs) /\
     ts_rtree ts' = rtree_of 0 fs /\ List.length (ts_rtree ts') = nonempty_count fs /\
     ts_desc ts' = desc_of t /\ map ts_desc (db_tabs d') = map desc_of tl /\
-    find_srs (s_id (t_srs t)) (db_srs d') =
-      Some (match find_srs (s_id (t_srs t)) known_srs with Some k => k | None => t_srs t end) /\
+    find_srs (s_id (t_srs t)) (db_srs d') = Some (t_srs t) /\
     Z.of_N (db_txs d') = Z.of_nat (List.length fs) / p + 1.
 Proof. exact fresh_file_spec. Qed.
 Print Assumptions C12_fresh_file.
@@ -218,3 +222,12 @@ Qed.
 Example C12_empty_point_regression :
   forall p, In p [1; 2; 3] -> exists x rt txs wr, ex_run p = Some (x, Some (MkExt (-4) (-15) 30 40), rt, txs, wr).
 Proof. intros p [<-|[<-|[<-|[]]]]; vm_compute; repeat eexists. Qed.
+
+(** F10 regression (fixed by e2006e7): a source table in srs 3857 with the row another writer gives that
+    id; the library pre-seeds 3857 with its own row, the target now holds the SOURCE's row *)
+Example C12_regression_F10 :
+  table_ok witness_table /\ find_srs 3857 known_srs <> Some witness_srs /\
+  exists d, create_tables empty_db [witness_table] = Ok d /\
+    find_srs (s_id (t_srs witness_table)) (db_srs d) = Some witness_srs /\
+    List.length (db_srs d) = 4%nat.
+Proof. split; [split; reflexivity|]. split; [discriminate|]. eexists. repeat split. Qed.
